@@ -253,7 +253,47 @@ func ruleRandomBits(e *Env) {
 	} else {
 		e.S.Bad(rule, flow.FnName(ver), "Version∘RandomID", fmt.Sprintf("Version() of a random ID is %v, not the constant 4", o.Ret), e.Pos(ver), "")
 	}
-	if o, err := ev.Eval(vari, []pred.Val{id}); err != nil {
+	o, err := ev.Eval(vari, []pred.Val{id})
+	if err != nil {
+		// an accessor that compares its field with several constants (switch lower>>61 { case 4, 5: … }) cannot be
+		// folded while one of the bits it looks at is a draw bit: evaluate it once per value of the draw bits among the
+		// three highest bits of Lower (two worlds on today's layout) and require the same constant in each
+		var free []int
+		for i := 61; i <= 63; i++ {
+			if lo.B[i].K == 's' {
+				free = append(free, i)
+			}
+		}
+		if len(free) > 0 && len(free) <= 3 {
+			same, first, okAll := true, int64(-1), true
+			for w := 0; w < 1<<len(free); w++ {
+				lo2 := pred.Bits{B: append([]pred.Bit(nil), lo.B...), Signed: lo.Signed}
+				for k, i := range free {
+					lo2.B[i] = pred.Bit{K: map[bool]byte{true: '1', false: '0'}[w>>k&1 == 1]}
+				}
+				id2 := &pred.StructV{T: id.T, Fields: []pred.Val{id.Fields[0], lo2}}
+				o2, err2 := ev.Eval(vari, []pred.Val{id2})
+				if err2 != nil {
+					okAll = false
+					break
+				}
+				k, isInt := intOf(o2.Ret)
+				if !isInt {
+					okAll = false
+					break
+				}
+				if first < 0 {
+					first = k
+				} else if k != first {
+					same = false
+				}
+			}
+			if okAll && same {
+				o, err = &pred.Outcome{Ret: pred.Const{V: constantInt(first)}}, nil
+			}
+		}
+	}
+	if err != nil {
 		e.S.Unk(rule, flow.FnName(vari), "Variant∘RandomID", err.Error(), e.Pos(vari))
 	} else if k, ok := intOf(o.Ret); ok && k == 1 {
 		e.S.Ok(rule, flow.FnName(vari), "Variant∘RandomID", "Variant() of the abstract random ID folds to the constant 1", e.Pos(vari))
